@@ -3,6 +3,8 @@ package props
 
 import (
 	"fmt"
+	"reflect"
+	"sort"
 	"strings"
 	"verif/internal/llvmref"
 
@@ -140,4 +142,73 @@ func lliExit(text string) (exit int, ok bool, note string) {
 		return 0, false, classify(firstLine(string(se)))
 	}
 	return exit, true, ""
+}
+
+// overlappingSlices walks everything reachable from the module through exported
+// and unexported fields and returns a description of two slices whose storage
+// (start to capacity) overlaps although they start at different addresses: two
+// lists carved from one chunk without a capacity limit, so that appending to
+// one writes into the other. Lists that are the same slice value (same start)
+// are shared by design and not reported. "" if there is none.
+func overlappingSlices(m *ir.Module) string {
+	type span struct {
+		lo, hi uintptr
+		what   string
+	}
+	var spans []span
+	seen := map[uintptr]bool{}
+	var walk func(v reflect.Value, where string, depth int)
+	walk = func(v reflect.Value, where string, depth int) {
+		if depth > 200 {
+			return
+		}
+		switch v.Kind() {
+		case reflect.Ptr:
+			if v.IsNil() || seen[v.Pointer()] {
+				return
+			}
+			seen[v.Pointer()] = true
+			walk(v.Elem(), where, depth+1)
+		case reflect.Interface:
+			if !v.IsNil() {
+				walk(v.Elem(), where, depth+1)
+			}
+		case reflect.Struct:
+			t := v.Type()
+			if t.PkgPath() == "sync" || t.PkgPath() == "math/big" {
+				return
+			}
+			for i := 0; i < v.NumField(); i++ {
+				walk(v.Field(i), t.Name()+"."+t.Field(i).Name, depth+1)
+			}
+		case reflect.Slice:
+			if v.IsNil() || v.Cap() == 0 {
+				return
+			}
+			sz := v.Type().Elem().Size()
+			if sz > 0 {
+				spans = append(spans, span{v.Pointer(), v.Pointer() + uintptr(v.Cap())*sz, where})
+			}
+			k := v.Type().Elem().Kind()
+			if k == reflect.Ptr || k == reflect.Interface || k == reflect.Struct || k == reflect.Slice {
+				for i := 0; i < v.Len(); i++ {
+					walk(v.Index(i), where, depth+1)
+				}
+			}
+		case reflect.Map:
+			it := v.MapRange()
+			for it.Next() {
+				walk(it.Value(), where, depth+1)
+			}
+		}
+	}
+	walk(reflect.ValueOf(m), "Module", 0)
+	sort.Slice(spans, func(i, j int) bool { return spans[i].lo < spans[j].lo })
+	for i := 1; i < len(spans); i++ {
+		a, b := spans[i-1], spans[i]
+		if b.lo > a.lo && b.lo < a.hi {
+			return fmt.Sprintf("the storage of a %s list (%d bytes up to its capacity) reaches into a %s list that starts %d bytes behind it", a.what, a.hi-a.lo, b.what, b.lo-a.lo)
+		}
+	}
+	return ""
 }
